@@ -1,5 +1,6 @@
 """C02 — unsealing accepts only the exact bytes, footer, assertion and key (structural necessary conditions)."""
 from ops import *
+import os, re
 from norm import fn as fmt_n
 from runner import site_of
 from termutil import *
@@ -20,7 +21,7 @@ ASSUMPTIONS = [
     "PAE is injective (C15)",
     "contract table for the aws-lc FFI wrapper module (lc::*)",
 ]
-FLOORS = {"R02.1": 12, "R02.2": 12, "R02.3": 12, "R02.4": 12, "R02.5": 12, "R02.6": 12, "R02.7": 1, "R02.8": 2}
+FLOORS = {"R02.1": 12, "R02.2": 12, "R02.3": 12, "R02.4": 12, "R02.5": 12, "R02.6": 12, "R02.7": 1, "R02.8": 2, "R02.9": 1}
 
 HAS_AAD = {"v1": False, "v2": False, "v3": True, "v3-aws-lc": True, "v4": True, "v4-sodium": True}
 VHEADER = {"v1": b"v1", "v2": b"v2", "v3": b"v3", "v3-aws-lc": b"v3", "v4": b"v4", "v4-sodium": b"v4"}
@@ -252,6 +253,40 @@ def run(ctx):
     check_core_plumbing(ctx)
     # R02.8 (shared with C09 R09.1/R09.2 for the token text form): the bytes that are authenticated are exactly what the text
     # says — FromStr strips only its own constants and hands the whole remainder to the strict base64 decoder (no trim, no slicing)
+    # R02.9: dependency features that relax signature verification must not be enabled by any workspace manifest
+    import tomllib, glob as _glob, extract as _ex
+    repo = getattr(ctx, "repo", None) or _ex.REPO
+    DENY = {("ed25519-dalek", "legacy_compatibility"): "ed25519-dalek accepts non-canonical signature scalars (s + l) when `legacy_compatibility` is on: a modified token verifies"}
+    bad = []
+    nman = 0
+    for mf in sorted(_glob.glob(os.path.join(repo, "*", "Cargo.toml")) + [os.path.join(repo, "Cargo.toml")]):
+        try:
+            with open(mf, "rb") as fh:
+                t = tomllib.load(fh)
+        except Exception as e:
+            bad.append(f"{os.path.relpath(mf, repo)}: cannot parse ({e})")
+            continue
+        nman += 1
+        enabled = set()
+        for sec in ("dependencies", "dev-dependencies", "build-dependencies"):
+            for dep, spec in (t.get(sec) or {}).items():
+                if isinstance(spec, dict):
+                    name = spec.get("package", dep)
+                    for ft in spec.get("features", []) or []:
+                        enabled.add((name, ft))
+        for wdep, spec in ((t.get("workspace") or {}).get("dependencies") or {}).items():
+            if isinstance(spec, dict):
+                for ft in spec.get("features", []) or []:
+                    enabled.add((spec.get("package", wdep), ft))
+        for fname, lst in (t.get("features") or {}).items():
+            for x in lst:
+                m = re.match(r"([A-Za-z0-9_-]+)\??/(.+)$", x)
+                if m:
+                    enabled.add((m.group(1), m.group(2)))
+        for (d, ft), why in DENY.items():
+            if (d, ft) in enabled:
+                bad.append(f"{os.path.relpath(mf, repo)} enables {d}/{ft}: {why}")
+    ctx.add("R02.9", "C02/R02.9/manifest-features", nman >= 8 and not bad, "; ".join(bad) or ("" if nman >= 8 else f"only {nman} manifests found"), None, {"manifests": nman})
     import c09
     class Scratch:
         def __init__(s): s.findings = []; s.world = ctx.world; s.crates = ctx.crates; s.analysed = {"functions": 0, "paths": 0, "call_sites": 0}; s.notes = []; s.tier = ctx.tier
